@@ -215,12 +215,12 @@ func c5BulkCount(c *Ctx, rule string, fi *FuncInfo, ps []*Path, elemOp string, t
 						}
 						incs := 0
 						for _, s := range stores {
-							if s.Addr.Op == "free" && s.Addr.N == cidx {
+							if (s.Addr.Op == "free" && s.Addr.N == cidx) || s.Addr.Key() == counter.Key() {
 								d := ToPoly(s.Val)
 								// value = *counter + 1
 								okInc := false
 								for _, a := range d.Atoms {
-									if a.Op == "load" && a.Args[0].Op == "free" && a.Args[0].N == cidx && d.Coef(a.Key()) == 1 && d.M[""] == 1 && len(d.M) == 2 {
+									if a.Op == "load" && ((a.Args[0].Op == "free" && a.Args[0].N == cidx) || a.Args[0].Key() == counter.Key()) && d.Coef(a.Key()) == 1 && d.M[""] == 1 && len(d.M) == 2 {
 										okInc = true
 									}
 								}
